@@ -212,6 +212,10 @@ def run(ctx):
     for name in ["Beam", "BeamTimo", "Elastic3D", "WeakForms", "HyperElastic", "PhaseField", "ElasticField", "ElasticSmallUnits", "InElastic"]:
         lc.simulate_and_replay(ctx, name, lc.ALL_ACTS, num // 3, 14, ctx.seed + 5, label="all")
         lc.simulate_and_replay(ctx, name, lc.CACHE_ACTS, num // 3, 12, ctx.seed + 6, label="cache")
+    # a mesh and its copies (spec/MeshCopy.tla): what is computed on / what moves one never shows on the other
+    from harness.props import meshcopy_replay
+
+    meshcopy_replay.run(ctx)
     beam_mesh_replacement(ctx)
     phasefield_history_replacement(ctx)
     beam_section_replacement(ctx)
